@@ -12,8 +12,8 @@
    offsets, tree reduction by _combine_fornav, _average_fornav).  Theorems with [RO] are over the reals: float32
    accumulation (accum_type / weight_type = float) is NOT covered by them; the correspondence bounds it. *)
 From Coq Require Import Reals ZArith List Lia Lra Bool QArith.
-From PR Require Import Base.Num Base.RNum Model.Grid Model.EWA
-     Proofs.Grid_real Proofs.C08_ll2cr Proofs.C08_acc Proofs.C08_dask.
+From PR Require Import Base.Num Base.RNum Model.Grid Model.EWA Gen.GenC08
+     Proofs.Grid_real Proofs.C08_ll2cr Proofs.C08_acc Proofs.C08_dask Proofs.C08_gen.
 Import ListNotations.
 Open Scope R_scope.
 
@@ -48,6 +48,27 @@ Theorem C08_counted_iff : forall (a : area R) (xy : R * R),
   (-1 <= arr_of_proj_x RO a (fst xy) <= IZR (width a) + 1 /\ -1 <= arr_of_proj_y RO a (snd xy) <= IZR (height a) + 1).
 Proof. exact counted_b_spec. Qed.
 Print Assumptions C08_counted_iff.
+
+(* the tie to the source: [gen_ll2cr_params] (coq/Gen/GenC08.v) is regenerated on every run from the current text of
+   pyresample/ewa/ewa.py:ll2cr (backward slice of the arguments handed to _ll2cr.ll2cr_static); it IS the model's
+   parameter computation, so the theorems above are statements about what the source computes *)
+Theorem C08_source_params_are_model : forall (a : area R),
+  params_of_tuple (gen_ll2cr_params RO a) = ll2cr_params RO a.
+Proof. exact gen_params_R. Qed.
+Print Assumptions C08_source_params_are_model.
+Theorem C08_ll2cr_source_is_area_map : forall (proj : R * R -> R * R) (a : area R) (fill : R) (lonlats : list (R * R)),
+  wf_area a ->
+  snd (ll2cr_static RO (params_of_tuple (gen_ll2cr_params RO a)) fill (map proj lonlats)) =
+  map (fun ll => if Rleb (big30 RO) (fst (proj ll)) then (fill, fill)
+                 else (arr_of_proj_x RO a (fst (proj ll)), arr_of_proj_y RO a (snd (proj ll)))) lonlats.
+Proof. exact ll2cr_src_is_area_map. Qed.
+Print Assumptions C08_ll2cr_source_is_area_map.
+Theorem C08_ll2cr_source_count : forall (proj : R * R -> R * R) (a : area R) (fill : R) (lonlats : list (R * R)),
+  wf_area a ->
+  fst (ll2cr_static RO (params_of_tuple (gen_ll2cr_params RO a)) fill (map proj lonlats)) =
+  Z.of_nat (length (filter (fun ll => counted_b a (proj ll)) lonlats)).
+Proof. exact ll2cr_src_count. Qed.
+Print Assumptions C08_ll2cr_source_count.
 
 (* hypotheses satisfiable, non-trivially: a FLIPPED 4x4 area (ymin > ymax); the point (1, -3) has column 1/2, row 1/2 *)
 Definition ex_flipped : area R := mk_area 0 0 4 (-4) 4 4.
